@@ -311,6 +311,8 @@ def check_property(prop, tier, seed):
         codes = cfg["codes"].get(suite, {})
         for (c, s, code) in diffs:
             name, kind = codes.get(code, ("code-%d" % code, "mismatch"))
+            if kind == "ignore":   # a monitor that belongs to another property sharing this suite
+                continue
             case = cases[c] if 0 <= c < len(cases) else None
             if kind == "monitor" or cfg.get("functional"):
                 concrete.append((suite, name, c, s, case, "Coq checker code %d (%s) at case %d step %d" % (code, name, c, s)))
